@@ -240,7 +240,10 @@ def resolver_used(ck):
     # resolveConflicts itself: fewer than two segments pass through unchanged, otherwise the pairwise pass runs
     rc = p.find_method("AlignmentSegmentConflictResolver", "resolveConflicts")
     from ..rules.common import select_cases
-    for pa in explore(ck, rc):
+    rcls = rc.enclosing_class
+    loop_mates = [m for m in rcls.methods.values() if m is not rc and any(isinstance(n, (ast.For, ast.While)) for n in ast.walk(m.node))
+                  and not any(isinstance(x, (ast.Yield, ast.YieldFrom)) for x in ast.walk(m.node))]
+    for pa in explore(ck, rc, unroll=(0, 1), follow=lambda callee: callee in loop_mates):
       if pa.outcome != "return":
           continue
       for v, extra in select_cases(pa.value):
@@ -264,9 +267,21 @@ def resolver_used(ck):
                          "segments are returned unresolved only when there are fewer than two",
                          found="; ".join(T.show(c) for c in conds), required=T.show(want))
         else:
-            ok = segs[0] == "app" and "pairAndResolveConflicts" in segs[1]
+            # (the pairwise walk over that chain is C01.3's subject, judged from this same entry point)
+            def is_chain(t, param):
+                return t[0] == "app" and t[1].endswith("SegmentChainer.chain") and t[2] == self_attr("segmentChainer") \
+                    and dict(t[3]).get("segments") == param
+            ok = is_chain(segs, V("segments"))
+            if not ok and segs[0] == "app" and any(m.qualname == segs[1] for m in loop_mates) and \
+                    [v for _, v in segs[3]] == [V("segments")]:
+                # the call sits inside an expression (not followed): read the class-mate on its own
+                mate = next(m for m in loop_mates if m.qualname == segs[1])
+                mp = V(mate.call_params()[0].name)
+                mrets = [q.value for q in explore(ck, mate, unroll=(0, 1)) if q.outcome == "return"]
+                ok = bool(mrets) and all(is_chain(r, mp) for r in mrets)
             ck.judge(ok, "C01.2", "resolveConflicts:resolved", where(rc, pa.node),
-                     "two or more segments go through the chain + pairwise resolution", found=T.show(segs)[:160])
+                     "two or more segments are returned as the injected chainer's chain (after the pairwise resolution walked over it)",
+                     found=T.show(segs)[:160], required="self.segmentChainer.chain(segments), resolved in place")
 
 
 # ---------------------------------------------------------------------------------------------------------- C01.3
@@ -276,39 +291,41 @@ def pairwise_pass(ck, rule):
     ctx = ck.ctx
     p = ctx.p
     cls = p.find_class("AlignmentSegmentConflictResolver")
-    fn = None
-    with_loop = [m for m in cls.methods.values() if any(isinstance(n, ast.For) for n in ast.walk(m.node))]
-    for m in with_loop:
-        if "resolveConflict" in ast.unparse(m.node):
-            fn = m
-    if fn is None:
-        # the step may have been moved into a helper: the loop is in the method whose explored paths (helpers that did not
-        # exist on the pinned tree are followed) store into a list twice
-        for m in with_loop:
-            if any(sum(1 for e in pa.events if e.kind == "setitem") >= 2 for pa in explore(ck, m, unroll=(1,))):
-                fn = m
-    if fn is None:
-        raise AnalysisError(f"{cls.where}: pairwise resolution loop not found in the resolver")
-    rets = [n for n in ast.walk(fn.node) if isinstance(n, ast.Return) and isinstance(n.value, ast.Name)]
-    if not rets:
-        raise AnalysisError(f"{fn.where}: returned chain not found")
-    cname = rets[-1].value.id
-    loops = [n for n in ast.walk(fn.node) if isinstance(n, ast.For)]
-    paths = explore(ck, fn, unroll=(1,))
+    entry = p.find_method("AlignmentSegmentConflictResolver", "resolveConflicts")
+    # the walk is explored from the resolver's entry point, reading through the class's own loop-carrying methods (so it does
+    # not matter in which of them the chain is computed and in which the loop runs); the index generator stays a call
+    with_loop = [m for m in cls.methods.values() if any(isinstance(n, (ast.For, ast.While)) for n in ast.walk(m.node))]
+    fn = next((m for m in with_loop if m is not entry), entry)
+
+    def mates(callee):
+        return callee in with_loop and callee is not entry and \
+            not any(isinstance(x, (ast.Yield, ast.YieldFrom)) for x in ast.walk(callee.node))
+    paths = explore(ck, entry, unroll=(1,), follow=mates)
+    entry_param = V(entry.call_params()[0].name)
+    if fn is not entry and not any(e.kind == "setitem" for pa in paths for e in pa.events):
+        # the loop-carrying method is called from inside an expression (such a call is not followed): read it on its own and
+        # check separately that the entry point hands it the segments it received
+        calls = [x for pa in paths if pa.value is not None for x in T.subterms(pa.value) if x[0] == "app" and x[1] == fn.qualname]
+        if calls:
+            ck.judge(all([v for _, v in x[3]] == [entry_param] for x in calls), rule, short(entry) + ":hand-over", entry.where,
+                     "the pairwise pass receives the segments the resolver was given", found=T.show(calls[0])[:160])
+            paths = explore(ck, fn, unroll=(1,))
+            entry_param = V(fn.call_params()[0].name)
     n = 0
     judged_gen = False
+    judged_chain = set()
     for pa in paths:
-        chain = None
-        for e in pa.events:
-            if e.kind == "assign" and isinstance(e.node, ast.Assign) and isinstance(e.node.targets[0], ast.Name) \
-                    and e.node.targets[0].id == cname and chain is None:
-                chain = e.term
-                ok = chain[0] == "app" and chain[1].endswith("SegmentChainer.chain") and chain[2] == self_attr("segmentChainer") \
-                    and dict(chain[3]).get("segments") == V(fn.call_params()[0].name)
-                ck.judge(ok, rule, short(fn) + ":chain", where(fn, e.node), "the list walked is the injected chainer's chain of all segments",
-                         found=T.show(chain)[:120], required="self.segmentChainer.chain(segments)")
-        if chain is None:
-            raise AnalysisError(f"{fn.where}: assignment of the chain variable `{cname}` not found")
+        all_stores = [e for e in pa.events if e.kind == "setitem"]
+        if not all_stores:
+            continue
+        chain = all_stores[0].extra["base"]
+        if chain not in judged_chain:
+            judged_chain.add(chain)
+            ok = chain[0] == "app" and chain[1].endswith("SegmentChainer.chain") and chain[2] == self_attr("segmentChainer") \
+                and dict(chain[3]).get("segments") == entry_param
+            ck.judge(ok, rule, short(fn) + ":chain", where(fn, all_stores[0].node),
+                     "the list walked is the injected chainer's chain of all segments",
+                     found=T.show(chain)[:120], required="self.segmentChainer.chain(segments)")
         stores = [e for e in pa.events if e.kind == "setitem" and e.extra["base"] == chain]
         if not stores:
             continue
@@ -343,8 +360,17 @@ def pairwise_pass(ck, rule):
                  found=f"pair({T.show(left)[-60:]}, {T.show(right)[-60:]}) -> left result to [{T.show(i0)[-40:]}], right result to "
                        f"[{T.show(i1)[-40:]}]", required="chain[i0], chain[i1] = chain[i0].checkForConflicts(chain[i1]).resolveConflict()")
         # index generator
+        if not judged_gen and i0[0] == "elem" and i0[1][0] == "call" and i0[1][1] == "range" and not i0[1][3]:
+            # the indexes are written in place: for i in range(len(chain) - 1): ... chain[i], chain[i + 1]
+            rargs = i0[1][2]
+            lo, hi = (C(0), rargs[0]) if len(rargs) == 1 else (rargs[0], rargs[1]) if len(rargs) == 2 else (None, None)
+            ck.judge(lo == C(0) and hi == T.p_sub(T.mk_call("len", [chain]), C(1)), rule, short(fn) + ":length", w,
+                     "index pairs are generated for the whole chain", found=T.show(i0[1])[:120], required="range(len(chain) - 1)")
+            ck.judge(i1 == T.p_add(i0, C(1)), rule, short(fn) + ":neighbours", w, "a step resolves slot i against slot i + 1",
+                     found=f"[{T.show(i0)[-40:]}] with [{T.show(i1)[-60:]}]", required="i and i + 1")
+            judged_gen = True
         if not judged_gen:
-            gens = [x for x in T.subterms(i0) if x[0] == "app"]
+            gens = [x for x in T.subterms(i0) if x[0] == "app" and x != chain and not T.contains(chain, x)]
             if not gens:
                 raise AnalysisError(f"{w}: index pairs are not produced by a repository function: {T.show(i0)[:120]}")
             g = gens[0]
